@@ -41,5 +41,18 @@ CLAIMED['C06'] = dict(
     technique="TLA+ transcription of the merge loops checked by TLC against relational definitions; spec->code case "
               "replay; code->spec trace validation by TLC",
     design="3/C06")
+CLAIMED['C07'] = dict(
+    text="TLC checks HashJoin.tla - lookup built at iter() time, one Probe action per streamed row, lookup reused across "
+         "passes when cache is on - against the same relational definition (RelJoin.tla) the sort-merge model is checked "
+         "against, plus emission in the order of the streamed side and the lookup laws (all rows per key in table order, "
+         "*one = first, strict raises iff a key repeats), for all pairs of key columns up to the bound x 5 operators x "
+         "cache x 2 passes. The C06 case set is replayed on the five real hash joins (two passes, cache on/off, prefixes, "
+         "natural key) and each result is also compared with the real sort-merge counterpart; lookup cases run on the 8 "
+         "lookup functions; Hypothesis table pairs are validated by TLC (JoinTrace, stream order).",
+    note="Hashable keys and, for the anti-joins, rectangular inputs (as the property states); bounds as C06; dict "
+         "insertion order of CPython trusted.",
+    technique="TLA+ model of build/probe/cache checked by TLC against the shared relational definition; spec->code "
+              "case replay incl. cross-check with the real merge joins; code->spec trace validation by TLC",
+    design="3/C07")
 
 NOT_APPLICABLE = {}
